@@ -20,6 +20,7 @@ package main
 import (
 	"bytes"
 	"fmt"
+	"regexp"
 	"sort"
 	"strings"
 	"unicode/utf8"
@@ -450,7 +451,7 @@ func classify(f failure) string {
 		return "string-escaped-backslash-desync"
 	case holeInJSBlockComment(src) && anyVal(f.usedVals(), func(v string) bool { return strings.Contains(v, "*/") }):
 		return "js-block-comment-breakout"
-	case strings.Contains(strings.ReplaceAll(src, " ", ""), "}}{{") && formsLineSeparator(f.usedVals()):
+	case adjacentHoles.MatchString(src) && formsLineSeparator(f.usedVals()):
 		return "js-string-split-line-separator"
 	case (only("unquoted attribute") || only("unquoted attribute+URL")) && anyVal(f.usedVals(), func(v string) bool { return v == "" }) && f.b.d.format == "html":
 		return "unquoted-attr-empty-value"
@@ -462,6 +463,10 @@ func classify(f failure) string {
 
 // the value contains no U+2028 / U+2029 but two copies of it side by side do (it ends with a
 // truncated E2 / E2 80 and starts with the missing continuation bytes)
+// two holes with nothing between them in the OUTPUT: adjacent in the source, or separated only by
+// statements / comments that write nothing (the generator's `{% if false %}zz{% end %}` included)
+var adjacentHoles = regexp.MustCompile(`\}\}(\{%[^%]*%\}|\{#[^#]*#\}|zz)*\{\{`)
+
 func formsLineSeparator(vs []string) bool {
 	has := func(s string) bool { return strings.Contains(s, "\u2028") || strings.Contains(s, "\u2029") }
 	for _, v := range vs {
